@@ -4,6 +4,7 @@ package slip
 
 import (
 	"fmt"
+	"io"
 	"strconv"
 	"strings"
 	"sync"
@@ -360,4 +361,28 @@ func (s *Scope) String() string {
 		b = append(b, '\n')
 	}
 	return string(b)
+}
+
+// WriterVar returns the value of a stream variable such as *standard-output*
+// as seen from the scope. A binding to something that is not an output stream
+// is a type error.
+func (s *Scope) WriterVar(name string, depth int) io.Writer {
+	v := s.Get(Symbol(name))
+	if w, ok := v.(io.Writer); ok {
+		return w
+	}
+	TypePanic(s, depth, name, v, "output-stream")
+	return nil
+}
+
+// ReaderVar returns the value of a stream variable such as *standard-input*
+// as seen from the scope. A binding to something that is not an input stream
+// is a type error.
+func (s *Scope) ReaderVar(name string, depth int) io.Reader {
+	v := s.Get(Symbol(name))
+	if r, ok := v.(io.Reader); ok {
+		return r
+	}
+	TypePanic(s, depth, name, v, "input-stream")
+	return nil
 }
